@@ -129,6 +129,25 @@ class Ctx:
         self.call_sites += len(gsites)
         return allok
 
+    def loop_guard(self, rule, B, gpred, accept, gname=None, sinks=None):
+        """Per-element guard inside a loop: (a) the sinks (default: success returns of B) are only
+        reachable in worlds where the guard did not reject; (b) every loop iteration passes the
+        guard: with the guard block removed, the iterator `next` block cannot reach itself."""
+        P = self.prog
+        succ = sinks if sinks is not None else self.success_sinks(B)
+        self.floor(rule, 'sinks of loop guard in ' + B.name, len(succ), 1)
+        self.guard(rule, B, gpred, accept, succ, unconditional=False, gname=gname)
+        cfg = P.cfg(B)
+        gs = P.call_sites(B, gpred)
+        nexts = [bid for bid, k, t in P.call_keys(B) if k.endswith('Iterator>::next')
+                 and any(bid in cfg.reachable_from(cfg.succ[g[0]]) and g[0] in cfg.reachable_from(cfg.succ[bid]) for g in gs)]
+        if not nexts:
+            raise Inconclusive('%s: no Iterator::next loop around %s in %s' % (rule, gname or gpred, B.name))
+        for nb in nexts:
+            r = cfg.reachable_from(cfg.succ[nb], removed_nodes={g[0] for g in gs})
+            self.ob(rule, B.name, 'every loop iteration passes %s' % (gname or gpred), nb not in r,
+                    at=B.blocks[nb].term.span)
+
     def only_callers(self, rule, sink, allowed, minimum=1):
         """P1: every function mentioning `sink` is in `allowed`."""
         if not self.prog.has(sink):
